@@ -18,35 +18,39 @@ def cfg_desc(cfg):
 
 
 def product_configs(expl, tier, models=('scalar', 'multi'), wide=False):
-    """The configuration product of DESIGN.md section 4 (reduced value sets in the quick tier)."""
+    """The configuration product of DESIGN.md section 4. Quick: full product of reduced value sets. Thorough: the
+    quick product plus every one-dimension extension of it by the remaining values (alpha 1/2 and 1, n_inner 3,
+    storages Interval / Sequence / library default, float names) – the full cross product of all value sets
+    (27k configs x 27 streams x draws) is out of reach (about a core-day)."""
+    base = dict(alphas=[F(1, 4)], ninner=[1, 2], storages=['Batch', 'Uniform', 'Geometric'],
+                imputers=['joint', 'product', 'default'], names=['str', 'int'])
+    sets = [base]
     if tier == 'thorough' or wide:
-        alphas = [F(1, 4), F(1, 2), F(1)]
-        ninner = [1, 2, 3]
-        storages = ['Batch', 'Interval', 'Sequence', 'Uniform', 'Geometric', 'libdefault']
-        imputers = ['joint', 'product', 'default']
-        names = ['str', 'int', 'float']
-    else:
-        alphas = [F(1, 4)]
-        ninner = [1, 2]
-        storages = ['Batch', 'Uniform', 'Geometric']
-        imputers = ['joint', 'product', 'default']
-        names = ['str', 'int']
-    out = []
+        for key, extra in (('alphas', [F(1, 2), F(1)]), ('ninner', [3]), ('storages', ['Interval', 'Sequence', 'libdefault']),
+                           ('names', ['float'])):
+            sets.append(dict(base, **{key: extra}))
+    out, seen = [], set()
     models = tuple(models) + (('swap',) if 'multi' in models else ())
-    for dyn, a, n, d, st, im, nm, model in itertools.product(
-            [False, True], alphas, ninner, [1, 2, 3], storages, imputers, names, models):
-        if not dyn and a != alphas[0]:
-            continue            # alpha is irrelevant in the static mode
-        if model == 'swap' and (im != 'joint' or nm != names[0]):
-            continue            # label-swapping model: joint imputer / first name type only
-        if expl == 'sage':
-            for lbib in (False, True):
-                out.append(dict(expl='sage', dynamic=dyn, alpha=a, n_inner=n, d=d, storage=st, imputer=im,
-                                names=nm, lbib=lbib, model=model, loss='poly' if lbib else 'sq'))
-        else:
-            for ign in (None, 0 if d == 1 else 1):
-                out.append(dict(expl='pfi', dynamic=dyn, alpha=a, n_inner=n, d=d, storage=st, imputer=im,
-                                names=nm, model=model, loss='poly' if ign is None else 'sq', ignored=ign))
+    for vs in sets:
+        for dyn, a, n, d, st, im, nm, model in itertools.product(
+                [False, True], vs['alphas'], vs['ninner'], [1, 2, 3], vs['storages'], vs['imputers'], vs['names'], models):
+            if not dyn and a != F(1, 4):
+                continue            # alpha is irrelevant in the static mode
+            if model == 'swap' and (im != 'joint' or nm != vs['names'][0]):
+                continue            # label-swapping model: joint imputer / first name type only
+            variants = [dict(lbib=False), dict(lbib=True)] if expl == 'sage' else \
+                [dict(ignored=None), dict(ignored=0 if d == 1 else 1)]
+            for var in variants:
+                if expl == 'sage':
+                    cfg = dict(expl='sage', dynamic=dyn, alpha=a, n_inner=n, d=d, storage=st, imputer=im, names=nm,
+                               lbib=var['lbib'], model=model, loss='poly' if var['lbib'] else 'sq')
+                else:
+                    cfg = dict(expl='pfi', dynamic=dyn, alpha=a, n_inner=n, d=d, storage=st, imputer=im, names=nm,
+                               model=model, loss='poly' if var['ignored'] is None else 'sq', ignored=var['ignored'])
+                k = repr(sorted(cfg.items(), key=str))
+                if k not in seen:
+                    seen.add(k)
+                    out.append(cfg)
     return out
 
 
